@@ -13,12 +13,13 @@ import subprocess
 import sys
 import xml.etree.ElementTree as ET
 
-from lib import common, specs
+from lib import common, specs, c19model
 
 PROP = 'C19'
 LEVEL = 'other'
-PROPS_MODULES = []
-GEN = []
+PROPS_MODULES = [c19model.PROPS_MODULE]
+GEN = list(c19model.GEN)
+REQUIRED_THEOREMS = list(c19model.THEOREMS)
 RULE = ('every case of Specs/**/*.json that the repository runner collects for Python and does not mark '
         'NotSupported/NotSupportedByDesign (exhaustive); distinct = distinct pytest node ids that ran')
 EXPLANATION = ('exhaustive replay of the Python-supported Specs corpus through the repository\'s own runner against the '
@@ -28,6 +29,10 @@ ASSUMPTIONS = ['datedelta / grapheme are shims (harness/shims); spec cases whose
 
 
 def correspond(ctx):
+    # (a) the model as kernel-checked intermediary for the spec families it covers (IP, GUID, boolean): Lean proves
+    #     model = spec (RTV.Props.C19), this correspondence gives implementation = model on the same inputs
+    c19model.model_cases(ctx)
+    # (b) everything: exhaustive replay through the repository's own runner
     scratch = os.path.join(common.VERIF, '.scratch', 'c19-%d' % os.getpid())
     os.makedirs(scratch, exist_ok=True)
     junit = os.path.join(scratch, 'junit.xml')
